@@ -2,6 +2,7 @@
 //! inputs and prints everything observable to a `.cases` file for comparison with the Coq model.
 mod common;
 mod gen;
+mod statics;
 mod store;
 
 use common::*;
@@ -17,6 +18,7 @@ fn main() {
     let mut count: usize = 100;
     let mut tier = "quick".to_string();
     let mut outp: Option<String> = None;
+    let mut shard = "0/1".to_string();
     let mut extra: Vec<String> = Vec::new();
     let mut i = 2;
     while i < args.len() {
@@ -33,6 +35,10 @@ fn main() {
                 tier = args[i + 1].clone();
                 i += 2
             }
+            "--shard" => {
+                shard = args[i + 1].clone();
+                i += 2
+            }
             "--out" => {
                 outp = Some(args[i + 1].clone());
                 i += 2
@@ -45,10 +51,14 @@ fn main() {
     }
     install_quiet_panic_hook();
     let thorough = tier == "thorough";
+    extra.push("--shard".to_string());
+    extra.push(shard.clone());
     let mut rng = Rng::new(seed);
     let mut out = Out::default();
     match mode.as_str() {
         "store" => store::run(&mut rng, count, thorough, &mut out),
+        "static" => statics::run(&mut rng, count, thorough, &statics::Cfg::from_extra(&extra, 1), &mut out),
+        "static-multi" => statics::run(&mut rng, count, thorough, &statics::Cfg::from_extra(&extra, 3), &mut out),
         _ => {
             eprintln!("unknown mode {}", mode);
             std::process::exit(2);
